@@ -364,6 +364,9 @@ func (w *World) CheckAddresses(inst *Instance, ws *WalletState, l *Ledger, class
 		}
 	}
 	for _, ia := range ws.Issued {
+		if ia.FromImport {
+			continue
+		}
 		a := ws.HD.Addr(ia.Index)
 		var h [32]byte
 		copy(h[:], a.ScriptHash)
